@@ -798,7 +798,8 @@ def op_setitem(P):
     if not as_flat and view.stored_blocks >= 1 and other.stored_blocks > view.stored_blocks and rng.random() < 0.6:
         # the target region lacks a block the right-hand side has, and the right-hand side lacks one the target has:
         # as many (or more) blocks on the right, but not the same ones
-        q_rm = [int(x) for x in np.asarray(view._qdata)[int(rng.integers(view.stored_blocks))]]
+        # (chosen from the sorted list: the storage order of blocks is not part of the value and may differ between implementations)
+        q_rm = [int(x) for x in sorted(np.asarray(view._qdata).tolist())[int(rng.integers(view.stored_blocks))]]
         sl = tuple(slice(int(l.slices[q]), int(l.slices[q + 1])) for l, q in zip(view.legs, q_rm))
         od = od.copy()
         od[sl] = 0
@@ -911,7 +912,7 @@ def op_sort_legcharge(P):
             else:
                 sort.append(bool(r < 0.65))
         kw = {'sort': sort, 'bunch': [bool(rng.random() < 0.5) for _ in range(a.ndim)]}
-    if mode == 'lists' and 'c01' in P.monitors and a.ndim >= 1 and a.shape[0] > 1 and rng.random() < 0.15:
+    if mode == 'lists' and tuple(P.monitors) == ('c01', ) and a.ndim >= 1 and a.shape[0] > 1 and rng.random() < 0.15:
         # documented argument form: an entry of `sort` may be "a 1D array perm for a given permutation to apply to a leg"
         kw2 = {'sort': [np.asarray(rng.permutation(a.arr.legs[0].block_number), dtype=np.intp)] + [False] * (a.ndim - 1), 'bunch': False}
         try:
@@ -1197,10 +1198,14 @@ def op_misc(P):
         if not same:
             if b.stored_blocks == 0 or a.dense.dtype.kind in 'iu' and False:
                 raise Skip()
-            blk = b._data[int(rng.integers(len(b._data)))]
+            # (the storage order of blocks is not part of the value and may differ between the two implementations: choose from
+            #  the sorted list, and consume the same number of draws whatever the size of the block)
+            order = sorted(range(len(b._data)), key=lambda k_: np.asarray(b._qdata)[k_].tolist())
+            blk = b._data[order[int(rng.integers(len(b._data)))]]
+            u = rng.random()
             if blk.size == 0:
                 raise Skip()
-            blk.flat[int(rng.integers(blk.size))] += 1
+            blk.flat[min(int(u * blk.size), blk.size - 1)] += 1
         got = (a.arr == b)
         if bool(got) != same:
             P.violation('eq:wrong', '== returned %r for %s arrays' % (got, 'equal' if same else 'different'))
